@@ -1113,7 +1113,7 @@ func (g *Gen) anonFn() *Node {
 // nameTarget returns an identifier that can be assigned (declaring it with var when none is at hand).
 func (g *Gen) nameTarget(pre *[]*Node) string {
 	if b := g.pickBinding(hAny, true); b != nil && b.kind != "const" && g.chance(60) {
-		b.holds = hAny
+		b.holds, b.fn = hFunc, nil // holds a function from now on (kept out of string / number contexts)
 		return b.name
 	}
 	name := g.pick(namePool)
@@ -1123,7 +1123,7 @@ func (g *Gen) nameTarget(pre *[]*Node) string {
 	if !g.canVar(name) {
 		name = g.fresh("t")
 	}
-	g.declVar(name, hAny)
+	g.declVar(name, hFunc)
 	*pre = append(*pre, &Node{K: KVar, S: "var", L: []*Node{{K: KDeclr, A: Id(name)}}})
 	return name
 }
@@ -1132,7 +1132,11 @@ func (g *Gen) nameTarget(pre *[]*Node) string {
 func (g *Gen) nameProbe() []*Node {
 	var out []*Node
 	logName := func(e *Node) *Node { return Log(Dot(e, "name")) }
-	switch g.pickW(20, 30, 12, 14, 12, 12) {
+	wParam := 12
+	if !g.o.ParamDefaultNames {
+		wParam = 0
+	}
+	switch g.pickW(20, 30, 12, 14, 12, wParam) {
 	case 0:
 		// name of something declared earlier
 		var cands []*gbind
@@ -1174,7 +1178,7 @@ func (g *Gen) nameProbe() []*Node {
 		kind := []string{"var", "let", "const"}[g.r.Intn(3)]
 		var names []string
 		t := g.bindingTarget(kind, hAny, 0, &names)
-		g.declare(kind, t.S, hAny)
+		g.declare(kind, t.S, hFunc)
 		pat := &Node{K: KArrPat, L: []*Node{{K: KPatElem, A: t, B: g.anonFn()}}}
 		src := Arr()
 		if g.chance(50) {
@@ -1195,9 +1199,10 @@ func (g *Gen) nameProbe() []*Node {
 	case 4:
 		// object literal values, methods, computed keys
 		t := g.nameTarget(&out)
+		suffix := g.pick([]string{"", "r"})
 		o := Obj(Prop("p", g.anonFn()), &Node{K: KProp, S: "m", B: &Node{K: KFunc, F: FMethod}, F: FMethod},
-			&Node{K: KProp, A: Bin("+", Str("q"), Str(g.pick([]string{"", "r"}))), B: g.anonFn(), F: FComputed})
-		return append(out, ExprStmt(Assign("=", Id(t), o)), Log(Dot(Dot(Id(t), "p"), "name"), Dot(Dot(Id(t), "m"), "name"), Dot(Index(Id(t), Str("q")), "name")))
+			&Node{K: KProp, A: Bin("+", Str("q"), Str(suffix)), B: g.anonFn(), F: FComputed})
+		return append(out, ExprStmt(Assign("=", Id(t), o)), Log(Dot(Dot(Id(t), "p"), "name"), Dot(Dot(Id(t), "m"), "name"), Dot(Index(Id(t), Str("q"+suffix)), "name")))
 	case 5:
 		// parameter default
 		t := g.pick(valNames)
@@ -1253,8 +1258,9 @@ func (g *Gen) loopClosures(depth int) []*Node {
 	extra := g.stmtList(g.r.Intn(2), depth+2, false)
 	g.loops--
 	bodyStmts := append([]*Node{store}, extra...)
-	if g.chance(25) {
-		// the loop variable is changed after the closure was created: the closure sees this iteration's final value
+	second := g.chance(25)
+	if second {
+		// a second closure of another form over the same iteration's binding
 		bodyStmts = append(bodyStmts, ExprStmt(Assign("=", Index(Id(arr), Bin("+", Id(v), Num(10))), closure())))
 	}
 	if g.off(NoForOf) || g.chance(70) {
@@ -1271,6 +1277,9 @@ func (g *Gen) loopClosures(depth int) []*Node {
 	var calls []*Node
 	for i := 0; i < int(trips); i++ {
 		calls = append(calls, Call(Index(Id(arr), Num(float64(i)))))
+		if second {
+			calls = append(calls, Call(Index(Id(arr), Num(float64(i+10)))))
+		}
 	}
 	out = append(out, Log(calls...))
 	return out
